@@ -179,8 +179,11 @@ package logql
 //@   capture dst = call(p.consumeText, 0)
 //@   capture src = call(p.parseIdent, 0)
 //@   capture tpl = call(p.parseString, 0)
+//@   modifies p.pos
+//@   ensures p.pos >= old(p.pos)
+//@   ensures ret1 == nil ==> ret0 != nil
 //@   loop 0 modifies p.pos, lf.Labels, lf.Values, lf.Labels[*], lf.Values[*], labels[*]
-//@   loop 0 invariant p.pos >= 0 && lf != nil && labels != nil
+//@   loop 0 invariant p.pos >= 0 && p.pos >= old(p.pos) && lf != nil && labels != nil && fresh(lf) && fresh(labels) && fresh(lf.Labels) && fresh(lf.Values)
 //@   loop 0 body_ensures[rename-source-to-target] src_called ==> len(lf.Labels) == head(len(lf.Labels))+1 && lf.Labels[len(lf.Labels)-1].Label == src_r0 && lf.Labels[len(lf.Labels)-1].To == Label(dst_r0)
 //@   loop 0 exit_ensures[rename-source-to-target] src_called && src_r1 == nil ==> len(lf.Labels) == head(len(lf.Labels))+1 && lf.Labels[len(lf.Labels)-1].Label == src_r0 && lf.Labels[len(lf.Labels)-1].To == Label(dst_r0)
 //@   loop 0 body_ensures[template-sets-target] tpl_called ==> len(lf.Values) == head(len(lf.Values))+1 && lf.Values[len(lf.Values)-1].Label == Label(dst_r0) && lf.Values[len(lf.Values)-1].Template == tpl_r0
@@ -193,7 +196,7 @@ package logql
 // of the expected type and return its text; dispatch tables map each operator / function token to
 // the operation named after it; the static rules of validate() are stated as decision tables.
 
-//@ spec func tokType(p *parser, i int) lexer.TokenType { return p.tokens[i].Type }
+//@ spec func tokType(p *parser, i int) lexer.TokenType { return ite(0 <= i && i < len(p.tokens), p.tokens[i].Type, lexer.EOF) }
 //@ spec func tokText(p *parser, i int) string { return p.tokens[i].Text }
 //@ spec func step(t lexer.TokenType) int { return ite(t == lexer.EOF, 0, 1) }
 
@@ -314,11 +317,20 @@ package logql
 //@   modifies p.pos
 //@   ensures p.pos >= old(p.pos)
 
+// A parenthesised, comma-separated, possibly empty list of labels: every label in order, nothing else.
 //@ func (*parser).parseLabels
-//@   trusted
 //@   requires p.pos >= 0
 //@   modifies p.pos
 //@   ensures p.pos >= old(p.pos)
+//@   ensures[open-paren] ret1 == nil ==> old(peekTok(p)) == lexer.OpenParen
+//@   ensures[empty-list] ret1 == nil && tokType(p, old(p.pos)+1) == lexer.CloseParen ==> len(ret0) == 0 && p.pos == old(p.pos)+2
+//@   ensures[non-empty-list] ret1 == nil && tokType(p, old(p.pos)+1) != lexer.CloseParen ==> len(ret0) > 0 && p.pos == old(p.pos) + 1 + 2*len(ret0) && tokType(p, p.pos-1) == lexer.CloseParen
+//@   ensures[labels-in-order] ret1 == nil ==> forall(0, len(ret0), func(k int) bool { return tokType(p, old(p.pos)+1+2*k) == lexer.Ident && ret0[k] == Label(tokText(p, old(p.pos)+1+2*k)) })
+//@   ensures[comma-separated] ret1 == nil ==> forall(0, len(ret0)-1, func(k int) bool { return tokType(p, old(p.pos)+2+2*k) == lexer.Comma })
+//@   loop 0 modifies p.pos, labels[*]
+//@   loop 0 invariant p.pos >= 0 && p.pos == old(p.pos) + 1 + 2*len(labels) && tokType(p, old(p.pos)+1) != lexer.CloseParen && fresh(labels)
+//@   loop 0 invariant forall(0, len(labels), func(k int) bool { return tokType(p, old(p.pos)+1+2*k) == lexer.Ident && labels[k] == Label(tokText(p, old(p.pos)+1+2*k)) })
+//@   loop 0 invariant forall(0, len(labels), func(k int) bool { return tokType(p, old(p.pos)+2+2*k) == lexer.Comma })
 
 //@ func (*parser).parseMetricExpr
 //@   trusted
@@ -466,8 +478,180 @@ package logql
 //@   ensures[literal-kinds] ret1 == nil && old(peekTok(p)) == lexer.Ident ==> tokType(p, old(p.pos)+2) == lexer.String || tokType(p, old(p.pos)+2) == lexer.Number ||
 //@       tokType(p, old(p.pos)+2) == lexer.Duration || tokType(p, old(p.pos)+2) == lexer.Bytes || tokType(p, old(p.pos)+2) == lexer.IP
 //@   ensures[maximal] ret1 == nil ==> peekTok(p) != lexer.Comma && peekTok(p) != lexer.Ident
+//@   ensures[rest-starts-after-comma-or-at-label] rest_called ==> before(rest_called, p.pos >= 1 && (tokType(p, p.pos-1) == lexer.Comma || peekTok(p) == lexer.Ident))
+//@   ensures[accepts-number-filter] old(peekTok(p)) == lexer.Ident && numericCmpTok(tokType(p, old(p.pos)+1)) && tokType(p, old(p.pos)+2) == lexer.Number && len(p.tokens) > old(p.pos)+2 &&
+//@       (num_called ==> num_r1 == nil) && (rest_called ==> rest_r1 == nil) ==> ret1 == nil
+//@   ensures[accepts-duration-filter] old(peekTok(p)) == lexer.Ident && numericCmpTok(tokType(p, old(p.pos)+1)) && tokType(p, old(p.pos)+2) == lexer.Duration && len(p.tokens) > old(p.pos)+2 &&
+//@       (dur_called ==> dur_r1 == nil) && (rest_called ==> rest_r1 == nil) ==> ret1 == nil
+//@   ensures[accepts-bytes-filter] old(peekTok(p)) == lexer.Ident && numericCmpTok(tokType(p, old(p.pos)+1)) && tokType(p, old(p.pos)+2) == lexer.Bytes && len(p.tokens) > old(p.pos)+2 &&
+//@       (byt_called ==> byt_r1 == nil) && (rest_called ==> rest_r1 == nil) ==> ret1 == nil
+//@   ensures[accepts-string-matcher] old(peekTok(p)) == lexer.Ident && (tokType(p, old(p.pos)+1) == lexer.Eq || tokType(p, old(p.pos)+1) == lexer.NotEq) && tokType(p, old(p.pos)+2) == lexer.String &&
+//@       len(p.tokens) > old(p.pos)+2 && (rest_called ==> rest_r1 == nil) ==> ret1 == nil
 
 //@ func compileLabelRegex
 //@   trusted
 //@   modifies nothing
 //@   ensures ret1 == nil ==> ret0 != nil
+
+// ---- C05: selectors.
+
+//@ scope parser_log_expr.go
+
+//@ spec func matchOp(t lexer.TokenType) BinOp {
+//@   if t == lexer.Eq { return OpEq }
+//@   if t == lexer.NotEq { return OpNotEq }
+//@   if t == lexer.Re { return OpRe }
+//@   if t == lexer.NotRe { return OpNotRe }
+//@   return 0
+//@ }
+
+// label OP "value": three tokens, nothing more; regex matchers carry the compiled pattern.
+//@ func (*parser).parseLabelMatcher
+//@   requires p.pos >= 0
+//@   capture re = call(compileLabelRegex, 0)
+//@   modifies p.pos
+//@   ensures p.pos >= old(p.pos)
+//@   ensures[three-tokens] ret1 == nil ==> p.pos == old(p.pos)+3 && tokType(p, old(p.pos)) == lexer.Ident && matchOp(tokType(p, old(p.pos)+1)) != 0 && tokType(p, old(p.pos)+2) == lexer.String
+//@   ensures[label] ret1 == nil ==> ret0.Label == Label(tokText(p, old(p.pos)))
+//@   ensures[op-of-token] ret1 == nil ==> ret0.Op == matchOp(tokType(p, old(p.pos)+1))
+//@   ensures[value] ret1 == nil ==> ret0.Value == tokText(p, old(p.pos)+2)
+//@   ensures[regex-compiled] ret1 == nil ==> ite(ret0.Op == OpRe || ret0.Op == OpNotRe, re_called && re_a0 == ret0.Value && ret0.Re == re_r0 && ret0.Re != nil, ret0.Re == nil)
+//@   ensures[accepts] tokType(p, old(p.pos)) == lexer.Ident && matchOp(tokType(p, old(p.pos)+1)) != 0 && tokType(p, old(p.pos)+2) == lexer.String && (re_called ==> re_r1 == nil) ==> ret1 == nil
+
+// { m1, m2, ... } possibly wrapped in parentheses: every matcher, in order.
+//@ func (*parser).parseSelector
+//@   requires p.pos >= 0
+//@   capture m = call(p.parseLabelMatcher, 0)
+//@   capture inner = call(p.parseSelector, 0)
+//@   modifies p.pos
+//@   ensures p.pos >= old(p.pos)
+//@   ensures[brace-or-paren] ret1 == nil ==> old(peekTok(p)) == lexer.OpenBrace || old(peekTok(p)) == lexer.OpenParen
+//@   ensures[paren] ret1 == nil && old(peekTok(p)) == lexer.OpenParen ==> inner_called && same(ret0, inner_r0) && tokType(p, p.pos-1) == lexer.CloseParen
+//@   ensures[empty] ret1 == nil && old(peekTok(p)) == lexer.OpenBrace && tokType(p, old(p.pos)+1) == lexer.CloseBrace ==> len(ret0.Matchers) == 0 && p.pos == old(p.pos)+2
+//@   ensures[extent] ret1 == nil && old(peekTok(p)) == lexer.OpenBrace && tokType(p, old(p.pos)+1) != lexer.CloseBrace ==> len(ret0.Matchers) > 0 && p.pos == old(p.pos) + 1 + 4*len(ret0.Matchers) && tokType(p, p.pos-1) == lexer.CloseBrace
+//@   ensures[matchers-in-order] ret1 == nil && old(peekTok(p)) == lexer.OpenBrace ==> forall(0, len(ret0.Matchers), func(k int) bool {
+//@       return ret0.Matchers[k].Label == Label(tokText(p, old(p.pos)+1+4*k)) && ret0.Matchers[k].Op == matchOp(tokType(p, old(p.pos)+2+4*k)) && ret0.Matchers[k].Value == tokText(p, old(p.pos)+3+4*k) &&
+//@              tokType(p, old(p.pos)+1+4*k) == lexer.Ident && matchOp(tokType(p, old(p.pos)+2+4*k)) != 0 && tokType(p, old(p.pos)+3+4*k) == lexer.String &&
+//@              ((ret0.Matchers[k].Op == OpRe || ret0.Matchers[k].Op == OpNotRe) == (ret0.Matchers[k].Re != nil)) })
+//@   ensures[comma-separated] ret1 == nil && old(peekTok(p)) == lexer.OpenBrace ==> forall(0, len(ret0.Matchers)-1, func(k int) bool { return tokType(p, old(p.pos)+4+4*k) == lexer.Comma })
+//@   loop 0 modifies p.pos, s.Matchers[*]
+//@   loop 0 invariant p.pos >= 0 && p.pos == old(p.pos) + 1 + 4*len(s.Matchers) && old(peekTok(p)) == lexer.OpenBrace && tokType(p, old(p.pos)+1) != lexer.CloseBrace && fresh(s.Matchers)
+//@   loop 0 invariant forall(0, len(s.Matchers), func(k int) bool {
+//@       return s.Matchers[k].Label == Label(tokText(p, old(p.pos)+1+4*k)) && s.Matchers[k].Op == matchOp(tokType(p, old(p.pos)+2+4*k)) && s.Matchers[k].Value == tokText(p, old(p.pos)+3+4*k) &&
+//@              tokType(p, old(p.pos)+1+4*k) == lexer.Ident && matchOp(tokType(p, old(p.pos)+2+4*k)) != 0 && tokType(p, old(p.pos)+3+4*k) == lexer.String &&
+//@              ((s.Matchers[k].Op == OpRe || s.Matchers[k].Op == OpNotRe) == (s.Matchers[k].Re != nil)) })
+//@   loop 0 invariant forall(0, len(s.Matchers), func(k int) bool { return tokType(p, old(p.pos)+4+4*k) == lexer.Comma })
+
+//@ func (*parser).parseLogExpr
+//@   requires p.pos >= 0
+//@   capture sel = call(p.parseSelector, 0)
+//@   capture pl = call(p.parsePipeline, 0)
+//@   modifies p.pos
+//@   ensures p.pos >= old(p.pos)
+//@   ensures[selector-then-pipeline] ret1 == nil ==> ret0 != nil && sel_called && same(ret0.Sel, sel_r0) && pl_called && !pl_a0 && same(ret0.Pipeline, pl_r0) && sel_r1 == nil && pl_r1 == nil
+//@   ensures[accepts] (sel_called ==> sel_r1 == nil) && (pl_called ==> pl_r1 == nil) ==> ret1 == nil
+
+// ---- C05: pipelines. Every iteration of parsePipeline appends exactly one stage, of the kind the
+// stage keyword denotes, after the stages parsed so far (which are kept in order).
+
+//@ scope parser_pipeline.go
+
+//@ func (*parser).parsePipeline
+//@   requires p.pos >= 0
+//@   capture lf = call(p.parseLineFilter, 0)
+//@   capture jx = call(p.parseLabelExtraction, 0)
+//@   capture lx = call(p.parseLabelExtraction, 1)
+//@   capture rx = call(p.parseRegexpLabelParser, 0)
+//@   capture pat = call(p.parseString, 0)
+//@   capture tpl = call(p.parseString, 1)
+//@   capture pred = call(p.parseLabelPredicate, 0)
+//@   capture lfmt = call(p.parseLabelFormatExpr, 0)
+//@   capture keep = call(p.parseKeepLabelsExpr, 0)
+//@   capture drop = call(p.parseDropLabelsExpr, 0)
+//@   capture dist = call(p.parseDistinctFilter, 0)
+//@   capture ur = call(p.unread, 1)
+//@   modifies p.pos
+//@   ensures p.pos >= old(p.pos)
+//@   ensures[stops-only-after-last-stage] ret1 == nil ==> lineFilterOp(peekTok(p)) == 0 && peekTok(p) != lexer.Pipe
+//@   ensures[unwrap-only-for-metric-queries] ur_called ==> allowUnwrap && ret1 == nil && peekTok(p) == lexer.Unwrap
+//@   loop 0 modifies p.pos, stages[*]
+//@   loop 0 invariant p.pos >= 0 && p.pos >= old(p.pos) && fresh(stages)
+//@   loop 0 body_ensures[one-stage-per-iteration] len(stages) == head(len(stages)) + 1 && forall(0, head(len(stages)), func(j int) bool { return stages[j] == head(stages[j]) })
+//@   loop 0 body_ensures[line-filter] lineFilterOp(head(peekTok(p))) != 0 ==> lf_called && typeis[*LineFilter](stages[len(stages)-1]) && as[*LineFilter](stages[len(stages)-1]) == lf_r0 && before(lf_called, p.pos) == head(p.pos)
+//@   loop 0 body_ensures[stage-keyword-follows-pipe] lineFilterOp(head(peekTok(p))) == 0 ==> head(peekTok(p)) == lexer.Pipe
+//@   loop 0 body_ensures[json] head(peekTok(p)) == lexer.Pipe && head(tokType(p, p.pos+1)) == lexer.JSON ==> jx_called && typeis[*JSONExpressionParser](stages[len(stages)-1]) &&
+//@       same(as[*JSONExpressionParser](stages[len(stages)-1]).Labels, jx_r0) && same(as[*JSONExpressionParser](stages[len(stages)-1]).Exprs, jx_r1) && before(jx_called, p.pos) == head(p.pos)+2
+//@   loop 0 body_ensures[logfmt] head(peekTok(p)) == lexer.Pipe && head(tokType(p, p.pos+1)) == lexer.Logfmt ==> lx_called && typeis[*LogfmtExpressionParser](stages[len(stages)-1]) &&
+//@       same(as[*LogfmtExpressionParser](stages[len(stages)-1]).Labels, lx_r0) && same(as[*LogfmtExpressionParser](stages[len(stages)-1]).Exprs, lx_r1) && before(lx_called, p.pos) == head(p.pos)+2
+//@   loop 0 body_ensures[regexp] head(peekTok(p)) == lexer.Pipe && head(tokType(p, p.pos+1)) == lexer.Regexp ==> rx_called && typeis[*RegexpLabelParser](stages[len(stages)-1]) &&
+//@       as[*RegexpLabelParser](stages[len(stages)-1]) == rx_r0 && before(rx_called, p.pos) == head(p.pos)+2
+//@   loop 0 body_ensures[pattern] head(peekTok(p)) == lexer.Pipe && head(tokType(p, p.pos+1)) == lexer.Pattern ==> typeis[*PatternLabelParser](stages[len(stages)-1]) &&
+//@       as[*PatternLabelParser](stages[len(stages)-1]).Pattern == tokText(p, head(p.pos)+2) && tokType(p, head(p.pos)+2) == lexer.String && p.pos == head(p.pos)+3
+//@   loop 0 body_ensures[unpack] head(peekTok(p)) == lexer.Pipe && head(tokType(p, p.pos+1)) == lexer.Unpack ==> typeis[*UnpackLabelParser](stages[len(stages)-1]) && p.pos == head(p.pos)+2
+//@   loop 0 body_ensures[line-format] head(peekTok(p)) == lexer.Pipe && head(tokType(p, p.pos+1)) == lexer.LineFormat ==> typeis[*LineFormat](stages[len(stages)-1]) &&
+//@       as[*LineFormat](stages[len(stages)-1]).Template == tokText(p, head(p.pos)+2) && tokType(p, head(p.pos)+2) == lexer.String && p.pos == head(p.pos)+3
+//@   loop 0 body_ensures[decolorize] head(peekTok(p)) == lexer.Pipe && head(tokType(p, p.pos+1)) == lexer.Decolorize ==> typeis[*DecolorizeExpr](stages[len(stages)-1]) && p.pos == head(p.pos)+2
+//@   loop 0 body_ensures[label-filter] head(peekTok(p)) == lexer.Pipe && (head(tokType(p, p.pos+1)) == lexer.Ident || head(tokType(p, p.pos+1)) == lexer.OpenParen) ==> pred_called &&
+//@       typeis[*LabelFilter](stages[len(stages)-1]) && as[*LabelFilter](stages[len(stages)-1]).Pred == pred_r0 && before(pred_called, p.pos) == head(p.pos)+1
+//@   loop 0 body_ensures[label-format] head(peekTok(p)) == lexer.Pipe && head(tokType(p, p.pos+1)) == lexer.LabelFormat ==> lfmt_called && typeis[*LabelFormatExpr](stages[len(stages)-1]) &&
+//@       as[*LabelFormatExpr](stages[len(stages)-1]) == lfmt_r0 && before(lfmt_called, p.pos) == head(p.pos)+2
+//@   loop 0 body_ensures[keep] head(peekTok(p)) == lexer.Pipe && head(tokType(p, p.pos+1)) == lexer.Keep ==> keep_called && typeis[*KeepLabelsExpr](stages[len(stages)-1]) &&
+//@       as[*KeepLabelsExpr](stages[len(stages)-1]) == keep_r0 && before(keep_called, p.pos) == head(p.pos)+2
+//@   loop 0 body_ensures[drop] head(peekTok(p)) == lexer.Pipe && head(tokType(p, p.pos+1)) == lexer.Drop ==> drop_called && typeis[*DropLabelsExpr](stages[len(stages)-1]) &&
+//@       as[*DropLabelsExpr](stages[len(stages)-1]) == drop_r0 && before(drop_called, p.pos) == head(p.pos)+2
+//@   loop 0 body_ensures[distinct] head(peekTok(p)) == lexer.Pipe && head(tokType(p, p.pos+1)) == lexer.Distinct ==> dist_called && typeis[*DistinctFilter](stages[len(stages)-1]) &&
+//@       as[*DistinctFilter](stages[len(stages)-1]) == dist_r0 && before(dist_called, p.pos) == head(p.pos)+2
+//@   loop 0 body_ensures[known-stage-keywords-only] head(peekTok(p)) == lexer.Pipe ==> head(tokType(p, p.pos+1)) == lexer.JSON || head(tokType(p, p.pos+1)) == lexer.Logfmt ||
+//@       head(tokType(p, p.pos+1)) == lexer.Regexp || head(tokType(p, p.pos+1)) == lexer.Pattern || head(tokType(p, p.pos+1)) == lexer.Unpack || head(tokType(p, p.pos+1)) == lexer.LineFormat ||
+//@       head(tokType(p, p.pos+1)) == lexer.Decolorize || head(tokType(p, p.pos+1)) == lexer.Ident || head(tokType(p, p.pos+1)) == lexer.OpenParen || head(tokType(p, p.pos+1)) == lexer.LabelFormat ||
+//@       head(tokType(p, p.pos+1)) == lexer.Keep || head(tokType(p, p.pos+1)) == lexer.Drop || head(tokType(p, p.pos+1)) == lexer.Distinct
+
+//@ func (*parser).parseLabelExtraction
+//@   trusted
+//@   requires p.pos >= 0
+//@   modifies p.pos
+//@   ensures p.pos >= old(p.pos)
+
+//@ func (*parser).parseRegexpLabelParser
+//@   trusted
+//@   requires p.pos >= 0
+//@   modifies p.pos
+//@   ensures p.pos >= old(p.pos)
+//@   ensures ret1 == nil ==> ret0 != nil
+
+//@ func (*parser).parseLabelsAndMatchers
+//@   trusted
+//@   requires p.pos >= 0
+//@   modifies p.pos
+//@   ensures p.pos >= old(p.pos)
+
+//@ func (*parser).parseKeepLabelsExpr
+//@   requires p.pos >= 0
+//@   capture lm = call(p.parseLabelsAndMatchers, 0)
+//@   modifies p.pos
+//@   ensures p.pos >= old(p.pos)
+//@   ensures[labels-and-matchers] ret1 == nil ==> ret0 != nil && lm_called && lm_r2 == nil && same(ret0.Labels, lm_r0) && same(ret0.Matchers, lm_r1)
+//@   ensures[accepts] (lm_called ==> lm_r2 == nil) ==> ret1 == nil
+
+//@ func (*parser).parseDropLabelsExpr
+//@   requires p.pos >= 0
+//@   capture lm = call(p.parseLabelsAndMatchers, 0)
+//@   modifies p.pos
+//@   ensures p.pos >= old(p.pos)
+//@   ensures[labels-and-matchers] ret1 == nil ==> ret0 != nil && lm_called && lm_r2 == nil && same(ret0.Labels, lm_r0) && same(ret0.Matchers, lm_r1)
+//@   ensures[accepts] (lm_called ==> lm_r2 == nil) ==> ret1 == nil
+
+// distinct l1, l2, ...: every label in order.
+//@ func (*parser).parseDistinctFilter
+//@   requires p.pos >= 0
+//@   modifies p.pos
+//@   ensures p.pos >= old(p.pos)
+//@   ensures[extent] ret1 == nil ==> ret0 != nil && len(ret0.Labels) > 0 && p.pos == old(p.pos) + 2*len(ret0.Labels) - 1
+//@   ensures[label-tokens] ret1 == nil ==> forall(0, len(ret0.Labels), func(k int) bool { return tokType(p, old(p.pos)+2*k) == lexer.Ident })
+//@   ensures[labels-in-order] ret1 == nil ==> forall(0, len(ret0.Labels), func(k int) bool { return ret0.Labels[k] == Label(tokText(p, old(p.pos)+2*k)) })
+//@   ensures[comma-separated] ret1 == nil ==> forall(0, len(ret0.Labels)-1, func(k int) bool { return tokType(p, old(p.pos)+1+2*k) == lexer.Comma }) && peekTok(p) != lexer.Comma
+//@   loop 0 modifies p.pos, df.Labels, df.Labels[*]
+//@   loop 0 invariant p.pos >= 0 && df != nil && fresh(df) && fresh(df.Labels) && p.pos == old(p.pos) + 2*len(df.Labels)
+//@   loop 0 invariant forall(0, len(df.Labels), func(k int) bool { return tokType(p, old(p.pos)+2*k) == lexer.Ident })
+//@   loop 0 invariant forall(0, len(df.Labels), func(k int) bool { return df.Labels[k] == Label(tokText(p, old(p.pos)+2*k)) })
+//@   loop 0 invariant forall(0, len(df.Labels), func(k int) bool { return tokType(p, old(p.pos)+1+2*k) == lexer.Comma })
